@@ -708,3 +708,41 @@ def check_matcher(ctx, rep, f, rule='R-MODEL.M3m'):
         else:
             rep.holds(rule, f, 'isinstance(r, {})'.format(K), 'for |w| = 0..3 and all {} truth assignments of the recursive sub-results the {} case equals its denotational clause'.format(total, K))
     return decided
+
+
+# ---- M3 by finite-shape evaluation -----------------------------------------------------------------------------------------
+
+def check_simplify_shapes(ctx, rep, f, rule='R-MODEL.M3'):
+    """regexp_simplify, evaluated (analyser's own evaluator) on every regular-expression tree of depth <= 3 over the
+    leaves 0, 1 and distinct letters: the result denotes the same language (Kleene-algebra equivalence with the letters as
+    free variables) and is not larger than the argument.  The simplifier decides by the class of a node and of its
+    (already simplified) children, so depth 3 covers every combination of decisions.  Returns the number of trees
+    evaluated, or None when the body is outside the evaluator's fragment."""
+    from .. import shapes
+    from ..abseval import Unsupported as U2
+    trees = shapes.shapes(3)
+    n = 0
+    try:
+        for t in trees:
+            r = shapes.rename(t, 'x')
+            got = shapes.ShapeEval(ctx, None, {}).call(f, [r], False)
+            n += 1
+            if got == ('raise',):
+                rep.violates(rule, f, 'def ' + f.name, '{} raises for the expression {}'.format(f.name, ka.show(shapes.ka_of(r))))
+                return n
+            if not (isinstance(got, tuple) and got and got[0] in shapes.ARITY):
+                raise U2('result is not a regular expression')
+            if got == r:
+                continue
+            if not ka.equivalent(shapes.ka_of(r), shapes.ka_of(got))[0]:
+                rep.violates(rule, f, 'def ' + f.name, '{}({}) = {}: the result does not denote the language of the argument ({} = {} is not an identity of Kleene algebra)'.format(
+                    f.name, ka.show(shapes.ka_of(r)), ka.show(shapes.ka_of(got)), ka.show(shapes.ka_of(r)), ka.show(shapes.ka_of(got))))
+                return n
+            if shapes.size(got) > shapes.size(r):
+                rep.violates(rule, f, 'def ' + f.name, '{}({}) = {}: the result is larger than the argument'.format(f.name, ka.show(shapes.ka_of(r)), ka.show(shapes.ka_of(got))))
+                return n
+    except (U2, Unsupported, RecursionError) as e:
+        rep.note('{}: finite-shape evaluation not applicable ({})'.format(f.short, e))
+        return None
+    rep.holds(rule, f, 'def ' + f.name, 'on all {} trees of depth <= 3 over 0, 1 and distinct letters the result is equal to the argument in Kleene algebra and not larger'.format(n))
+    return n
